@@ -111,7 +111,6 @@ impl Search {
         // Uses a heuristic to determine the maximum time to spend on a move
         #[cfg(rce_verif)]
         crate::rce_verif::point("search.enter");
-        self.start();
         #[cfg(rce_verif)]
         crate::rce_verif::point("search.armed");
 
@@ -811,6 +810,7 @@ impl Search {
     /// search.start();
     /// assert_eq!(search.is_running(), true);
     /// ```
+    #[allow(dead_code)]
     fn start(&self) {
         self.running.store(true, Ordering::Relaxed);
     }
